@@ -103,6 +103,9 @@ func ValueKey(info *types.Info, e ast.Expr) string {
 			if c, ok := o.(*types.Const); ok {
 				return c.Name() // true / false
 			}
+			if v, ok := o.(*types.Var); ok && v.Pkg() != nil && v.Parent() == v.Pkg().Scope() {
+				return ObjKey(v)
+			}
 		}
 	case *ast.SelectorExpr:
 		if s := info.Selections[x]; s != nil {
@@ -117,6 +120,9 @@ func ValueKey(info *types.Info, e ast.Expr) string {
 			}
 			if f, ok := o.(*types.Func); ok {
 				return "func:" + FuncKey(f)
+			}
+			if v, ok := o.(*types.Var); ok && v.Pkg() != nil && v.Parent() == v.Pkg().Scope() {
+				return ObjKey(v)
 			}
 		}
 	case *ast.IndexExpr: // generic instantiation f[T]
